@@ -3166,11 +3166,22 @@ def __catch_to_py_ast(
             sym.symbol(exc_binding.name), catch_exc_name, LocalType.CATCH
         )
         catch_ast = _synthetic_do_to_py_ast(ctx, catch.body)
+        # Python deletes the name bound by an `except` clause when the clause is exited,
+        # so a function defined in the catch body which closes over the exception could
+        # not refer to it once it escapes the handler. Bind the exception to a throwaway
+        # name and assign it to the local name used by the body.
+        handler_exc_name = genname("exc")
         return ast.ExceptHandler(
             type=exc_type.node,
-            name=catch_exc_name,
+            name=handler_exc_name,
             body=list(
                 chain(
+                    [
+                        ast.Assign(
+                            targets=[ast.Name(id=catch_exc_name, ctx=ast.Store())],
+                            value=ast.Name(id=handler_exc_name, ctx=ast.Load()),
+                        )
+                    ],
                     map(statementize, catch_ast.dependencies),
                     [
                         ast.Assign(
